@@ -228,6 +228,28 @@ var States = []State{
 		b.write(b.tgt(strings.Repeat("n", 200)+"_gen.go"), "x\n", 0o644)
 		b.write(b.tgt("oas_"+strings.Repeat("n", 200)+"_gen.go"), "x\n", 0o644)
 	}},
+	{Name: "target-path-component-looks-generated", Target: "internal/openapi/oas_v1", Build: func(b *builder) {
+		b.gen(b.prevGen, 0o644)
+		for _, n := range lookalikeNames() {
+			b.write(b.tgt(n), user(n), 0o644)
+		}
+		b.write(b.tgt("wire_gen.go"), user("wire_gen.go"), 0o644)
+		b.write(b.tgt("mock_gen_test.go"), user("mock_gen_test.go"), 0o644)
+		b.write(b.abs("internal/openapi/sibling_gen.go"), user("sibling_gen.go"), 0o644)
+		b.write(b.abs("internal/oas_sibling_gen.go"), user("oas_sibling_gen.go"), 0o644)
+	}},
+	{Name: "target-spelled-with-dot-and-trailing-slash", Target: "./openapi-gen//pets/", Build: func(b *builder) {
+		b.gen(b.prevGen, 0o644)
+		b.write(b.tgt("wire_gen.go"), user("wire_gen.go"), 0o644)
+		b.write(b.tgt("types_gen_test.go"), user("types_gen_test.go"), 0o644)
+		b.write(b.tgt("myoas_types_gen.go"), user("myoas_types_gen.go"), 0o644)
+		b.write(b.tgt("sub/oas_sub_gen.go"), user("sub"), 0o644)
+	}},
+	{Name: "target-absolute-path", Target: "$SB/work/oas3/gen api", Build: func(b *builder) {
+		b.gen(b.prevGen, 0o644)
+		b.write(b.tgt("wire_gen.go"), user("wire_gen.go"), 0o644)
+		b.write(b.tgt("README.md"), "readme\n", 0o644)
+	}},
 	{Name: "seeded-random-tree", Target: "out", Thorough: true, Build: randomTree},
 }
 
